@@ -5,6 +5,17 @@
 From Model Require Export Base PyVal B64 IntCodec TableTypes.
 Open Scope N_scope.
 
+(* ---------- compact octet-string literal for generated case files ----------
+   [hx 0x1<hex digits>%positive]: the leading 1 is a sentinel that keeps leading
+   zero octets (number literals parse ~5x faster than string literals) *)
+Fixpoint hx_aux (p : positive) (cur w : N) (acc : list N) : list N :=
+  match p with
+  | xH => acc
+  | xO q => if w =? 128 then hx_aux q 0 1 (cur :: acc) else hx_aux q cur (2 * w) acc
+  | xI q => if w =? 128 then hx_aux q 0 1 ((cur + w) :: acc) else hx_aux q (cur + w) (2 * w) acc
+  end.
+Definition hx (p : positive) : list N := hx_aux p 0 1 [].
+
 (* ---------- structural equality on pv (oracle-table keys) ---------- *)
 Definition flt_eqb (a b : flt) : bool :=
   match a, b with
